@@ -302,6 +302,18 @@ static long eval_const_expr(Token **rest, Token *tok) {
   // Convert pp-numbers to regular numbers
   convert_pp_tokens(expr);
 
+  // [https://www.sigbus.info/n1570#6.10.1p4] In #if, all signed integer
+  // types act as intmax_t and all unsigned ones as uintmax_t. A constant
+  // such as 0xffffffff, which is unsigned only because it does not fit
+  // in int, fits in intmax_t and is therefore signed.
+  for (Token *t = expr; t->kind != TK_EOF; t = t->next) {
+    if (t->kind != TK_NUM || !is_integer(t->ty))
+      continue;
+    bool is_unsigned = t->ty->is_unsigned &&
+      (t->ty->size == 8 || memchr(t->loc, 'u', t->len) || memchr(t->loc, 'U', t->len));
+    t->ty = is_unsigned ? ty_ulong : ty_long;
+  }
+
   Token *rest2;
   long val = const_expr(&rest2, expr);
   if (rest2->kind != TK_EOF)
